@@ -111,11 +111,20 @@ def special_cases(shapes):
     return [(f"{label}#{k}={lit}", sh, k, lit) for label, sh in shapes for k in range(n_slots(sh)) for lit in SPECIAL_LITERALS]
 
 
+# regional language tags (both spellings of the region): the rule files are the language's, the decimal mark is the REGION's (CLDR: Mexico,
+# Guatemala, the Dominican Republic and Great Britain write the period; Spain, Argentina and Finland the comma).  Keys carry the base
+# language: the rules are the same files, so a slot the base language never speaks is the same finding here.
+REGIONAL = {"es-MX": ".", "es-mx": ".", "es-GT": ".", "es-DO": ".", "es-ES": ",", "es-ar": ",", "en-GB": ".", "en-gb": ".", "sv-FI": ",", "fi-FI": ",", "zh-TW": ".", "vi-VN": ",", "id-ID": ","}
+
+
 def work(item):
     lang, style, verb, cases = item
     mc = mcx.worker_mc()
-    mark = lattice.mark(lang)
-    setup = [["rules_dir", mcx.RULES], ["pref", "TTS", "none"], ["pref", "Language", lang], ["pref", "SpeechStyle", style], ["pref", "Verbosity", verb]]
+    mark = REGIONAL.get(lang) or lattice.mark(lang)
+    tag = lang
+    if lang in REGIONAL and lang.lower() not in ("en-gb", "zh-tw"):
+        lang = lang.split("-")[0]             # for keys, messages and the per-configuration cache; the preference is set to the full tag
+    setup = [["rules_dir", mcx.RULES], ["pref", "TTS", "none"], ["pref", "Language", tag], ["pref", "SpeechStyle", style], ["pref", "Verbosity", verb]]
     built = []
     special = {}
     for case in cases:
@@ -150,7 +159,7 @@ def work(item):
             else:
                 dead_ordinary |= {(base_label, k_) for k_ in range(len(planted_))}
     # which operand slots are already missing when the construct stands alone (context-free defects of one rule)?
-    ck = (lang, style, verb)
+    ck = (tag, style, verb)
     if ck not in _ALONE:
         alone = set()
         d1 = []
@@ -175,7 +184,7 @@ def work(item):
         if not is_ok(r[0]):
             counts["rejected"] += 1
             continue
-        replay = {"lang": lang, "style": style, "verbosity": verb, "label": label, "shape": sh}
+        replay = {"lang": tag, "style": style, "verbosity": verb, "label": label, "shape": sh}
         if label in special:
             replay["special"] = list(special[label])
         if not is_ok(r[1]):
@@ -251,6 +260,13 @@ def main(tier):
         cs += sp_cases
         for i in range(0, len(cs), 700):
             jobs.append((lang, style, verb, cs[i:i + 700]))
+    # regional tags: depth-1 terms (thorough: depth 2) in the language's styles at Medium
+    for tag in REGIONAL:
+        for style in lattice.styles(tag.lower()):
+            cs = d1 if tier == "quick" else list(shapes)
+            for i in range(0, len(cs), 700):
+                jobs.append((tag, style, "Medium", cs[i:i + 700]))
+    run.count("regional_language_tags", len(REGIONAL))
     outs = []
     for _ in range(2):
         mcx._worker_mc = mcx.Mc()
